@@ -34,6 +34,8 @@ pub enum St {
     Timestamp { g: usize, s: Scheme, ts: usize, to: usize },
     /// crafted / degenerate payloads
     Payload { g: usize, s: Scheme, kind: usize },
+    /// every message taking verifying / opening entry point with a message (or identifier) of dense length #`len`
+    MsgLen { g: usize, s: Scheme, len: usize },
 }
 
 pub const N_EMPTY: usize = 15;
@@ -477,6 +479,9 @@ impl Model for M17 {
                 for kind in 0..N_PAYLOAD {
                     v.push(St::Payload { g, s, kind });
                 }
+                for len in 0..dense_lens().len() {
+                    v.push(St::MsgLen { g, s, len });
+                }
             }
         }
         v
@@ -614,6 +619,45 @@ impl Model for M17 {
                 o.outcome(if r.is_ok() { "timestamp:returned" } else { "timestamp:PANIC" });
                 if let Err(p) = r {
                     o.expect(&format!("C17:panic:timestamp-verify:{}:{}:{}", GROUPS[*g], s.name(), profile), false, "returns", &p);
+                }
+            }
+            St::MsgLen { g, s, len } => {
+                fn run<C: Suite>(x: &Ctx<C>, s: Scheme, len: usize) -> Result<(), String> {
+                    let msg = vec![0x5au8; len];
+                    guard(|| {
+                        let ls = lib_scheme(s);
+                        // an honest signature over this message and one over another message, through every verifying entry
+                        let honest = x.sk.sign(ls, &msg);
+                        for sig in [honest.ok(), Some(x.sigs[s.idx()])].into_iter().flatten() {
+                            let _ = sig.verify(&x.pk, &msg);
+                            let raw = *sig.as_raw_value();
+                            let _ = mk_multi_sig::<C>(s, raw).verify(MultiPublicKey::<C>(x.pk.0), &msg);
+                            let _ = mk_pk_share::<C>(1, &x.pk.0).verify(&mk_sig_share::<C>(s, 1, &raw), &msg);
+                            let _ = mk_agg_sig::<C>(s, raw + raw).verify(&[(x.pk, msg.clone()), (x.pk, x.msg.clone())]);
+                            let _ = ProofOfKnowledgeTimestamp::<C>::generate(&msg, sig).map(|p| p.verify(x.pk, &msg, None));
+                            if let Ok((c, sec)) = ProofCommitment::<C>::generate(&msg, sig) {
+                                let _ = c.finalize(sec, x.challenge, sig).map(|p| p.verify(x.pk, &msg, x.challenge));
+                            }
+                            // the message as time-lock identifier and as sealed payload
+                            if let Ok(ct) = x.pk.encrypt_time_lock(ls, b"payload", &msg) {
+                                let _ = Option::<Vec<u8>>::from(ct.decrypt(&sig));
+                            }
+                            if let Ok(ct) = x.pk.encrypt_time_lock(ls, &msg, b"id") {
+                                let _ = Option::<Vec<u8>>::from(ct.decrypt(&sig));
+                            }
+                        }
+                        let ct = x.pk.sign_crypt(ls, &msg);
+                        let _ = bool::from(ct.is_valid());
+                        let _ = Option::<Vec<u8>>::from(ct.decrypt(&x.sk));
+                    })
+                }
+                let l = dense_lens()[*len];
+                let r = if *g == 0 { run(&self.c1, *s, l) } else { run(&self.c2, *s, l) };
+                o.calls(20);
+                o.outcome(if r.is_ok() { "message-length:returned" } else { "message-length:PANIC" });
+                if let Err(p) = r {
+                    let band = if l <= 300 { "<=300".to_string() } else { format!("{}", l) };
+                    o.expect(&format!("C17:panic:message-length:{}:{}:len{}:{}", GROUPS[*g], s.name(), band, profile), false, "returns", &p);
                 }
             }
             St::Payload { g, s, kind } => {
